@@ -153,7 +153,7 @@ def extra(chk, mult):
 
 
 def run(chk):
-    simmon.run_property(chk, PID, extra=extra)
+    simmon.run_property(chk, PID, n_thorough=2000, extra=extra)
 
 
 def extra_replay(chk, c):
